@@ -2,6 +2,7 @@
 descriptions (JSON) and the builder that turns a description into real
 lazy_dataset pipelines (parallel build and sequential reference build).
 """
+import re
 import zlib
 import numbers
 
@@ -233,7 +234,7 @@ class RefCatchDataset(ldc.Dataset):
         self.exceptions = exceptions
 
     def __iter__(self, with_key=False):
-        ds = self.input_dataset
+        ds = self.input_dataset.copy(freeze=True)
         if with_key:
             for k in ds.keys():
                 try:
@@ -364,6 +365,9 @@ def norm(v):
     return v
 
 
+_ADDR = re.compile(r'0x[0-9a-fA-F]+')
+
+
 def short(v, limit=160):
-    s = repr(v)
+    s = _ADDR.sub('0x?', repr(v))
     return s if len(s) <= limit else s[:limit] + '...'
